@@ -32,3 +32,18 @@ func verifToken(l *lexer, typ int, pos ast.Pos, val string, w ast.Word) {
 		h(l, l.cmdSubst != 0, typ, pos, val, w)
 	}
 }
+
+// VerifAliasHook, when set, is called for every character the lexer
+// reads (op 1; 4 at the end of the input or on a read error), for every
+// unread (2) and for every alias substitution performed (3) or refused
+// because the name is being expanded (5). direct tells whether the lexer
+// reads the source or the alias stack itself rather than through the
+// lexer that owns the alias stack.
+var VerifAliasHook func(direct bool, op int, r rune, name string)
+
+func verifAlias(l *lexer, op int, r rune, name string) {
+	if h := VerifAliasHook; h != nil {
+		_, via := l.r.(aliasReader)
+		h(!via, op, r, name)
+	}
+}
